@@ -111,10 +111,11 @@ Fixpoint nodupb (l : list Z) : bool :=
 Definition enum_literals_ok (x : enum_def * base_type * Z) : bool :=
   let '(e, b, w) := x in
   let ds := discriminants 0 (e_variants e) in
+  let cb := carrier_bits w in
   nodupb ds &&
   match b with
-  | BInt => true
-  | _ => forallb (fun z => 0 <=? z) ds     (* `A = -1` in an enum with an unsigned repr does not compile *)
+  | BInt => forallb (fun z => (- 2 ^ (cb - 1) <=? z) && (z <? 2 ^ (cb - 1))) ds   (* repr iN: `B = 65535` does not fit i16 *)
+  | _ => forallb (fun z => (0 <=? z) && (z <? 2 ^ cb)) ds   (* `A = -1` in an enum with an unsigned repr does not compile *)
   end.
 
 Fixpoint nodup_str (l : list string) : bool :=
